@@ -546,6 +546,11 @@ var frags = []frag{
 		return b
 	}},
 	{"quote", func(r *vh.Rng) []byte { return []byte{'"'} }},
+	// text that already looks like a JSON escape (stored JSON, logs of other encoders): a literal backslash followed by
+	// u003c / u0026 / u2028 / n / " ... must come back as exactly those characters
+	{"escape-looking", func(r *vh.Rng) []byte {
+		return pickB(r, []byte(`\u0026`), []byte(`\u003c`), []byte(`\u003e`), []byte(`\u2028`), []byte(`\u00`), []byte(`\n`), []byte(`\"`), []byte(`\\u0026`), []byte(`\ud800`), []byte(`&amp;`))
+	}},
 	{"backslash", func(r *vh.Rng) []byte { return []byte{'\\'} }},
 	{"slash", func(r *vh.Rng) []byte { return []byte{'/'} }},
 	{"html", func(r *vh.Rng) []byte { return pickB(r, []byte("<"), []byte(">"), []byte("&"), []byte("</script>")) }},
